@@ -27,7 +27,8 @@ COLORS = ["red", "blue", "green", "#00ff00", "#123456", "black"]
 # matplotlib style float tuples scaled 0-1, and the one-letter names
 COLOR_FORMS = [
     ([0, 0, 1], "#000001"), ([0.0, 0.0, 1.0], "#0000ff"), ([1, 0, 0], "#010000"), ([1.0, 0.0, 0.0], "#ff0000"),
-    ([120, 125, 126], "#787d7e"), ("r", "red"), ("k", "black"), ("#FF00AA", "#ff00aa"), ("rgb(1,2,3)", "#010203"),
+    ([120, 125, 126], "#787d7e"), ([0.0, 0.0, 1.0, 1], "#0000ff"), ([0, 0, 1, 1.0], "#000001"),
+    ([0, 0, 1, 1], "#000001"), ([1.0, 0.0, 0.0, 0.5], "#ff0000"), ("r", "red"), ("k", "black"), ("#FF00AA", "#ff00aa"), ("rgb(1,2,3)", "#010203"),
 ]
 
 
@@ -108,7 +109,7 @@ VALID = {
 }
 # clearly invalid per the docstrings of the style classes
 INVALID = {
-    "color": ["notacolor"],
+    "color": ["notacolor", [0, 0.0, 1.0], [0.5, 1, 0]],
     "bool": ["yes", 2],
     "posnum": [-1, "big"],
     "unit": [2, -0.5, "x"],
